@@ -293,7 +293,16 @@ def gen_alabama(rng, count):
         base = seq[0]
         big = max(pv, key=pv.get)
         prev = [[common.cnum(big), base.get(big, 0) + rng.randint(1, 2)]]
-        made += 1
+        # several parties short at once: at a paradox step h -> h+1 two parties gain a seat each (a third loses one); give
+        # each of them one direct seat more than its share at some house size before the step, so that the loop meets a
+        # size where more seats are missing than the enlargement that repairs it
+        steps = [i for i, (a, b) in enumerate(zip(seq, seq[1:])) if sum(1 for p in pv if b.get(p, 0) > a.get(p, 0)) >= 2]
+        if steps and rng.random() < 0.7:
+            i = steps[0]
+            gain = [p for p in pv if seq[i + 1].get(p, 0) > seq[i].get(p, 0)]
+            prev2 = [[common.cnum(p), seq[i + 1].get(p, 0)] for p in gain]
+            if sum(s for _, s in prev2) <= n:
+                prev = prev2
         yield dict(unit='overhang', kind='level', ev=['lr'], votes=votes, n=n, prev=prev, wrap=False)
 
 
